@@ -85,6 +85,9 @@ func checkC04(c *Ctx) {
 	checkFormatGuards(c, "C04.R1.format-guards", ev, 2)
 	// a valid body must reach the handler: the validator of a body array looks at the stored body
 	checkSliceValidatorSeesValue(c, "C04.R1.validated-value", ev)
+	// what both sides decode of a body with additional properties: declared keys leave the extras map by their JSON name
+	c.Rule("C04.R1.decode-keys", "a declared property is removed from the additional-properties map by its JSON name before the rest is decoded as additional properties", 2)
+	checkEmitRules(c, "C04.R1.decode-keys", ev, []emitRule{serializerRules[2]})
 	checkHeaderWriterGuards(c, ev)
 	checkIndexedJoins(c, ev)
 	checkInnerArraysKept(c, "C04.R1.inner-arrays-kept", ev)
